@@ -8,6 +8,7 @@ package sym
 
 import (
 	"fmt"
+	"os"
 	"sync"
 )
 
@@ -213,7 +214,8 @@ func (s *nsched) join() {
 }
 
 func hasSchedule() bool {
-	if w == nil {
+	if w == nil || os.Getenv("SYM_NOSCHED") != "" {
+		// SYM_NOSCHED: real goroutines (race confirmation: the baton hand-over would order every access)
 		return false
 	}
 	for k := range w.Ints {
